@@ -114,7 +114,7 @@ def run_cases(cs, compiled=True):
 
     def task(batch):
         p = subprocess.run([sys.executable, "-B", "-m", "mc.shipworker", json.dumps(batch)], env=envd, capture_output=True, text=True,
-                           cwd="/verif", timeout=3000)
+                           cwd="/verif", timeout=1200)
         out = {}
         for line in p.stdout.splitlines():
             if line.startswith("CASE "):
